@@ -88,7 +88,16 @@ def level0_case(draw, tier='quick'):
             labels.append('patently-empty-piece')
         terms = [reg]
         if partition:
-            for j in range(i):
+            todo = list(range(i))
+            if i >= 2 and draw(st.integers(0, 3)) == 0:
+                # exclude two earlier cells with one nested complement:
+                # #( #(#a) : #(#b) )  =  not (cell a or cell b)
+                a, b = todo[0], todo[1]
+                terms.append(md.NOT(md.OR(md.NOT(md.CELLC(cell_ids[a])),
+                                          md.NOT(md.CELLC(cell_ids[b])))))
+                labels.append('nested-cell-complement')
+                todo = todo[2:]
+            for j in todo:
                 how = draw(st.sampled_from(['cell', 'cell', 'paren', 'demorgan']))
                 if how == 'cell':
                     terms.append(md.CELLC(cell_ids[j]))
